@@ -560,8 +560,14 @@ class Component(CaselessDict):
         # are the subcomponent types hashable, so  we cant put them in a set to
         # check for set equivalence. We have to iterate over the subcomponents
         # and look for each of them in the list.
+        # Each subcomponent is matched with a different one of the other.
+        unmatched = list(other.subcomponents)
         for subcomponent in self.subcomponents:
-            if subcomponent not in other.subcomponents:
+            for index, candidate in enumerate(unmatched):
+                if subcomponent == candidate:
+                    del unmatched[index]
+                    break
+            else:
                 return False
 
         return True
